@@ -368,6 +368,89 @@ class Views(Harness):
             if bad and _classify(hist, bad) not in KNOWN_CLASSES:
                 raise AssertionError('%r: %r' % (hist, bad))
             n += 1
+        if cfg['seqs'] and not cfg['seqs'][0]:
+            n += self._representation_probe(cfg['extint'], rng)
+        return n
+
+    def _representation_probe(self, extint, rng):
+        """what the exact-real model cannot see: the dtype / container of
+        the arguments and whether the object keeps a reference to the
+        caller's arrays (concrete differential runs of the real code)"""
+        from pysym import probes
+        from pysym.runner import ConcreteViolation
+        mu = repo_module(MU)
+        K = 2
+        Nr0, Nt0 = [2, 3], [3, 2]
+        cols = sum(Nt0) + extint
+        H = crandn(rng, sum(Nr0), cols)
+        cls = mu.MultiUserChannelMatrixExtInt if extint else \
+            mu.MultiUserChannelMatrix
+        site = 'extint' if extint else 'plain'
+
+        def views(ch):
+            out = [np.array(ch.big_H), np.array(ch.Nr), np.array(ch.Nt)]
+            for k in range(K):
+                out.append(np.array(ch.get_Hk(k)))
+                for l in range(K):
+                    out.append(np.array(ch.get_Hkl(k, l)))
+            return out
+
+        # (a) path loss given in several representations
+        def with_pathloss(pl, ple, Hm):
+            ch = cls()
+            if extint:
+                ch.init_from_channel_matrix(Hm, np.array(Nr0), np.array(Nt0),
+                                            K, extint)
+                ch.set_pathloss(pl, ple)
+            else:
+                ch.init_from_channel_matrix(Hm, np.array(Nr0), np.array(Nt0),
+                                            K)
+                ch.set_pathloss(pl)
+            return views(ch)
+        pl = np.array([[1.0, 4.0], [9.0, 1.0]])
+        ple = np.array([[0.25], [0.64]])
+        n = probes.require('C08/%s/set_pathloss' % site, with_pathloss,
+                           [pl, ple, H], rtol=1e-9,
+                           kinds=('readonly', 'fortran', 'strided', 'int',
+                                  'narrow'), check_result_alias=False)
+        # (b) the antenna counts handed over must not stay aliased: the
+        # caller re-uses its arrays for the next scenario
+        # (init_from_channel_matrix stores the caller's channel matrix and
+        # antenna-count arrays by reference on the unchanged tree: a caller
+        # that modifies them afterwards is outside the property; randomize
+        # makes its own copies and must keep doing so)
+        for how in ('randomize', ):
+            Nr = np.array(Nr0, dtype=np.int64)
+            Nt = np.array(Nt0, dtype=np.int64)
+            ch = cls()
+            if how == 'randomize':
+                ch.set_channel_seed(rng.randrange(1 << 30))
+                if extint:
+                    ch.randomize(Nr, Nt, K, extint)
+                else:
+                    ch.randomize(Nr, Nt, K)
+            elif extint:
+                ch.init_from_channel_matrix(H, Nr, Nt, K, extint)
+            else:
+                ch.init_from_channel_matrix(H, Nr, Nt, K)
+            before = views(ch)
+            Nr[:] = [3, 2]
+            Nt[:] = [1, 4]
+            H2 = H.copy()
+            after = views(ch)
+            ok = all(a.shape == b.shape and np.array_equal(a, b)
+                     for a, b in zip(before, after))
+            if ok:
+                ch.set_pathloss(*((pl, ple) if extint else (pl, )))
+                blk = ch.get_Hkl(1, 0)
+                raw = np.array(ch._big_H_no_pathloss)[2:5, 0:3] if \
+                    how == 'randomize' else H2[2:5, 0:3]
+                ok = blk.shape == (3, 3) and np.allclose(blk, raw * 3.0)
+            if not ok:
+                raise ConcreteViolation(
+                    'C08/%s/%s:keeps-reference-to-the-callers-antenna-arrays'
+                    % (site, how), dict(how=how))
+            n += 1
         return n
 
 
